@@ -12,7 +12,7 @@ from ..common import MachineryError
 from .C09 import _plain
 from .lre_common import model, fr, quiet
 
-K = 2
+K = 2      # replaced per scenario by the number of orders the spec computed
 
 
 def nanv(v):
@@ -20,6 +20,8 @@ def nanv(v):
 
 
 def check(chk, sc, out):
+    global K
+    K = len(dict(out["cov"])) - 1
     payload = {"kind": "acov", "sc": _plain(sc), "src": list(out["src"])}
     tag = "acov:%s" % sc["id"]
     desc = "model %s stds %s measurement std %s" % (sc["id"], _plain(sc["sd"]), _plain(sc["sdw"]))
@@ -101,7 +103,7 @@ def check(chk, sc, out):
 
 def run(chk):
     dump = chk.scratch.file("acov.dump")
-    r = tlc.must_pass(tlc.run("AcovMC", "AcovMC.cfg", chk.scratch, dump=dump, timeout=1800), "AcovMC")
+    r = tlc.must_pass(tlc.run("AcovMC", "AcovMC.thorough.cfg" if chk.tier == "thorough" else "AcovMC.cfg", chk.scratch, dump=dump, timeout=1800), "AcovMC")
     chk.add_tlc(r, "AcovMC")
     n = units = 0
     for st in tlaval.parse_dump(dump, want=lambda b: "done = TRUE" in b):
